@@ -60,6 +60,7 @@ type ProcSpec struct {
 	StopCmd     string `json:"stop_cmd,omitempty"` // token: command is "simstop <token>"
 	UseEntry    bool   `json:"use_entry,omitempty"` // use entrypoint: [simproc, token] instead of command
 	CmdTail     string `json:"cmd_tail,omitempty"`  // appended to the command line after the token (C17: $VAR forms)
+	RawYAML     string `json:"raw_yaml,omitempty"`  // lines written verbatim into the process's body
 }
 
 type ProjectSpec struct {
@@ -234,6 +235,7 @@ func (p *ProjectSpec) Render(tmp string) string {
 	b.WriteString("processes:\n")
 	for _, pr := range p.Procs {
 		fmt.Fprintf(&b, "  %s:\n", pr.Name)
+		b.WriteString(pr.RawYAML)
 		if pr.UseEntry {
 			fmt.Fprintf(&b, "    entrypoint: [\"simproc\", %s]\n", q(pr.Token))
 		} else {
